@@ -5,7 +5,7 @@ import engine_plugin as ep
 ID = "C15"
 LEAN_MODULES = ["HgVerif.Props.C15", "HgVerif.Model.Engine", "HgVerif.Model.Extracted"]
 THEOREMS = ["HgVerif.Tie.tie_resumeChecksFailed", "HgVerif.Sched.failed_cycle_restarts", "HgVerif.Sched.stale_cursor_skips_prefix",
-            "HgVerif.Sched.fresh_cycle_scans_all"]
+            "HgVerif.Sched.fresh_cycle_scans_all", "HgVerif.Sched.fresh_when_cursor_zero", "HgVerif.Sched.stale_cursor_witness"]
 CXX_TARGETS = ["hgv_engine"]
 USES_EXTRACT = True
 RULE = ("generated programs with a capturing node (exception_time_series) or a try_except-wrapped chain sub-graph whose "
